@@ -111,6 +111,7 @@ def work(shard):
             it = []
             for (w, l, seed, fd) in shard["boards"]:
                 it.append(G.gen_rnd_board(seed, l, w, 0.3, 3, fd))
+        prev = None
         for moves, rew, loose in it:
             L, W = len(moves), len(moves[0])
             out["boards"] += 1
@@ -124,7 +125,11 @@ def work(shard):
                     for f in res:
                         out["n_violations"] += 1
                         if len([c for c in out["violations"] if c["klass"] == f[0]]) < 2:
-                            out["violations"].append(mk_case(L, W, moves, rew, loose, triple, manual, f))
+                            c = mk_case(L, W, moves, rew, loose, triple, manual, f)
+                            if prev is not None:
+                                c["config"]["board_written_to_the_same_path_before"] = prev
+                            out["violations"].append(c)
+                    prev = {"length": L, "width": W, "moves": moves, "rewards": rew, "loose_tiles": loose, "triple": list(triple), "manual": manual}
             if W == 1 or any(m == 3 for row in moves for m in row) or any(x for row in loose for x in row):
                 out["nontrivial"] += 1
             if not out["samples"] and out["boards"] % 101 == 1:
@@ -160,7 +165,7 @@ def plan(ctx):
                                "probability_triples": [list(t) for t in TRIPLES[2:]]})
                 for lo, hi in par.ranges(size0, ctx.jobs):
                     shards.append({"kind": "enum", "shape": shape, "rewset": (0,), "lo": lo, "hi": hi, "manual": False, "triples": TRIPLES[2:]})
-    for shape, vals in (((2, 2), (0, 1, 2, 5)), ((2, 3), (0, 3, 5)), ((3, 2), (0, 3, 5))):
+    for shape, vals in (((2, 2), (0, 1, 2, 5)), ((2, 3), (0, 3, 5)), ((3, 2), (0, 3, 5)), ((2, 2), (0, 0.5, 2.5)), ((1, 3), (0.25, 1, 1.75))):
         for lo, hi in par.ranges(len(vals) ** (shape[0] * shape[1]), ctx.jobs):
             shards.append({"kind": "rewards", "shape": shape, "values": vals, "manual": True, "lo": lo, "hi": hi})
         spaces.append({"reward_layout_boards": len(vals) ** (shape[0] * shape[1]), "shape_length_x_width": list(shape), "reward_values": list(vals),
@@ -204,9 +209,18 @@ def replay(case):
     tmp = tempfile.mkdtemp(prefix="crverif_c08_")
     os.mkdir(os.path.join(tmp, "inputs"))
     try:
-        res, _, _, _ = check_board(tmp, inp["length"], inp["width"], inp["moves"], inp["rewards"], inp["loose_tiles"],
-                                   (cfg["prob_robot_break"], cfg["prob_light_break"], cfg["prob_tile_break"]),
-                                   cfg["entry"] == "create_sg_from_board")
+        args = (inp["length"], inp["width"], inp["moves"], inp["rewards"], inp["loose_tiles"],
+                (cfg["prob_robot_break"], cfg["prob_light_break"], cfg["prob_tile_break"]), cfg["entry"] == "create_sg_from_board")
+        res, _, _, _ = check_board(tmp, *args)
+        pb = cfg.get("board_written_to_the_same_path_before")
+        if not res and pb:
+            # history: the file path had been written before (the generator must truncate what is there)
+            try:
+                G.write_robots(os.path.join(tmp, "inputs", "x.py"), pb["length"], pb["width"], pb["moves"], pb["rewards"], pb["loose_tiles"],
+                               pb["triple"][2], pb["triple"][0], pb["triple"][1])
+            except Exception:                                # noqa: BLE001
+                pass
+            res, _, _, _ = check_board(tmp, *args)
     finally:
         shutil.rmtree(tmp, ignore_errors=True)
     for f in res:
